@@ -161,8 +161,12 @@ def validate_batches(ctx, batches, counters, tag="tr"):
             if run in still:
                 b2 = still[run]
                 out[origin][2] += 1
-                ctx.violation("%s run %s: %s at record %s %s%s" % (
-                    origin, run, b2["why"], b2["idx"], json.dumps(b2["rec"]), (" properties " + ",".join(b2["inv"])) if b2["inv"] else ""),
+                hint = ""
+                if b2["why"] == "unexplained" and b2["rec"].get("ev") == "Loop_Timeout":
+                    hint = (" [the heartbeat reaped client %s although it is open, answers every ping and neither the loop nor "
+                            "its reader stalled: disconnect dispatched for a live client]" % b2["rec"].get("c"))
+                ctx.violation("%s run %s: %s at record %s %s%s%s" % (
+                    origin, run, b2["why"], b2["idx"], json.dumps(b2["rec"]), (" properties " + ",".join(b2["inv"])) if b2["inv"] else "", hint),
                     {"kind": "trace", "origin": origin, "verdict": b2, "events": byrun.get(run, [])})
             else:
                 out[origin][1] += 1
